@@ -188,7 +188,7 @@ func TestC17MergeLaws(t *testing.T) {
 			i := rapid.IntRange(0, n-1).Draw(rt, "i")
 			j := rapid.IntRange(0, n-1).Draw(rt, "j")
 			a, b := w.nodes[i], w.nodes[j]
-			switch rapid.SampledFrom([]string{"join", "join", "gossip", "gossip", "gossip", "restart", "bootstrap", "suspect", "recover", "remove", "bump", "epoch", "snap", "snap"}).Draw(rt, "op") {
+			switch rapid.SampledFrom([]string{"join", "join", "gossip", "gossip", "gossip", "restart", "bootstrap", "suspect", "recover", "remove", "bump", "epoch", "learn", "learn", "snap", "snap"}).Draw(rt, "op") {
 			case "join":
 				// a seed answers joins after it bootstrapped / joined itself (it is a member of its own view)
 				if i != j && b.view.Members[b.id] != nil {
@@ -228,6 +228,30 @@ func TestC17MergeLaws(t *testing.T) {
 					a.view.RemoveMember(b.id)
 					a.view.IncrementVersion(a.id)
 					w.log = append(w.log, fmt.Sprintf("remove(%s drops %s)", a.id, b.id))
+				}
+			case "learn":
+				// a state of node b learnt from elsewhere (a peer outside this simulation, an older
+				// process of b): any generation / non-zero logical clock combination. The
+				// property orders incarnations lexicographically by (generation, logical clock),
+				// so the two are drawn independently.
+				st := w.newState(b)
+				st.Status = cluster.MemberStatusUp
+				st.Generation = rapid.IntRange(1, 4).Draw(rt, "gen")
+				st.LogicalClock = uint64(rapid.IntRange(1, 6).Draw(rt, "clock"))
+				if rapid.Bool().Draw(rt, "oldTimestamp") {
+					st.Timestamp = w.base - int64(rapid.IntRange(1, 1000).Draw(rt, "dt"))*1000
+				}
+				before := project(a.view)[b.id]
+				_, had := project(a.view)[b.id]
+				a.view.AddMember(st)
+				after := project(a.view)[b.id]
+				w.log = append(w.log, fmt.Sprintf("learn(%s learns %s at g%d,c%d)", a.id, b.id, st.Generation, st.LogicalClock))
+				want := proj{st.Generation, st.LogicalClock}
+				if had && !less(before, want) {
+					want = before
+				}
+				if after != want {
+					(&failer{rt, func() string { return strings.Join(w.log, "; ") }}).fail("union-newest|add-member", "AddMember: had %v (present=%v), offered (g%d,c%d), now %v, expected %v", before, had, st.Generation, st.LogicalClock, after, want)
 				}
 			case "bump":
 				if a.view.Members[a.id] != nil {
